@@ -41,8 +41,8 @@ ASSUMPTIONS = [
     "any exception counts as the permitted signal when the problem is infeasible, the total is 0 or a bound is NaN (0*inf relative bound); for a feasible problem only FailedConstraint/AssertionError do",
     "ProgramSet is built programmatically (ProgramSet.new on the tb_simple framework/data) with constant default spending; no simulation is run",
 ]
-BUDGET = {"quick": 9000, "thorough": 1600000}
-TIME_CAP = {"quick": 75, "thorough": 1150}
+BUDGET = {"quick": 9000, "thorough": 72000}  # thorough = 8x quick: a depth that was run to completion, quiet, at seed 1 (deterministic given the seed)
+TIME_CAP = {"quick": 75, "thorough": 1500}
 
 INF = math.inf
 NPROG = 10
